@@ -122,6 +122,60 @@ def gen_compose(rng):
     return "proj/main.etk", entries, want
 
 
+def gen_isolation(rng):
+    """%include isolates NAMES in both directions, whether or not the included file defines labels: the same macro name
+    on both sides, an included file that mentions a label / invokes a macro only the includer has, an includer that
+    invokes a macro / mentions a label only the included file has.  Expected: the included file assembled on its own
+    (its fault set if it does not assemble) spliced as raw bytes into the includer assembled on its own."""
+    G.setup()
+    X = lambda toks: G.X(rng, toks)
+    with_label = rng.random() < 0.4          # the interesting half: NO label in the included file
+    scenario = rng.choice(["same_macro", "same_emacro", "child_uses_parent_label", "child_uses_parent_macro",
+                           "parent_uses_child_macro", "parent_uses_child_label", "same_label_both"])
+    child, pre, post = [], [], []
+    if scenario == "same_macro":
+        child = [("mdef", "tag", [], [("push", 1, X(["0x22"]))]), ("minv", "tag", []), ("minv", "tag", [])]
+        pre = [("mdef", "tag", [], [("push", 1, X(["0x11"]))]), ("minv", "tag", [])]
+        post = [("label", "after"), ("op", "jumpdest"), ("push", 1, X(["after"])), ("minv", "tag", [])]
+    elif scenario == "same_emacro":
+        child = [("edef", "k", [], X(["7"])), ("push", 1, X(["k", "(", ")"]))]
+        pre = [("edef", "k", [], X(["9"])), ("push", 1, X(["k", "(", ")"]))]
+        post = [("push", 1, X(["k", "(", ")", "+", "1"]))]
+    elif scenario == "child_uses_parent_label":
+        child = [("op", "pc"), ("push", 1, X(["outer"]))]
+        pre = [("label", "outer"), ("op", "jumpdest")]
+    elif scenario == "child_uses_parent_macro":
+        child = [("op", "pc"), ("minv", "helper", [])]
+        pre = [("mdef", "helper", [], [("op", "gas")]), ("minv", "helper", [])]
+    elif scenario == "parent_uses_child_macro":
+        child = [("mdef", "helper", [], [("op", "pc")]), ("minv", "helper", [])]
+        post = [("minv", "helper", [])]
+    elif scenario == "parent_uses_child_label":
+        child = [("label", "inner"), ("op", "jumpdest")]
+        post = [("push", 1, X(["inner"]))]
+        with_label = True
+    else:
+        child = [("label", "x"), ("op", "jumpdest"), ("push", 1, X(["x"]))]
+        pre = [("op", "pc"), ("label", "x"), ("op", "jumpdest")]
+        post = [("push", 1, X(["x"]))]
+        with_label = True
+    if with_label and not any(c[0] == "label" for c in child):
+        child = child + [("label", "own"), ("op", "jumpdest")]
+    files = {"proj/lib/inc.etk": A.render(child, None).encode()}
+    main_text = A.render(pre, None) + '%include("lib/inc.etk")\n' + A.render(post, None)
+    files["proj/main.etk"] = main_text.encode()
+    try:
+        cb, _ = A.assemble(child)
+        ref = pre + [("raw", cb)] + post
+        try:
+            want, _ = A.assemble(ref)
+        except A.Faults as f:
+            want = ("err", [list(k) for k in f.keys])
+    except A.Faults as f:
+        want = ("err", [list(k) for k in f.keys])
+    return "proj/main.etk", [("f", p, c) for p, c in files.items()], want, scenario + ("+label" if with_label else "")
+
+
 # ------------------------------------------------------------------ C18: containment
 
 CANARY = bytes.fromhex("63deadbeef")          # push4 0xdeadbeef
